@@ -260,6 +260,34 @@ def _worker(tier, is_canary):
                                    same, backend="bounded-evaluation"))
         if not same:
             out["witness"]["write_trainables:three make_trainable calls (channel parameter, per-branch radius with unequal groups, initial state) are written to exactly their rows"] = {"group_sizes": [1, 2, 3]}
+        # ---- write_trainables after a HISTORY: the tables were converted to arrays earlier (to_jax / a simulation), then changed
+        # with set() in rows that no trainable selects; what is written must be the current tables plus the trainables
+        # (seeded change C10_c: a stale array cache)
+        import jaxley as jx
+        for how in ("to_jax", "integrate"):
+            cell, _ = template()
+            cell.branch(1).make_trainable("HH_gNa", verbose=False)
+            cell.branch(0).make_trainable("radius", verbose=False)
+            if how == "to_jax":
+                cell.to_jax()
+            else:
+                cell.delete_recordings()
+                cell.branch(0).comp(0).record("v", verbose=False)
+                jx.integrate(cell, params=cell.get_parameters(), delta_t=0.025, t_max=0.05)
+            cell.branch(2).set("HH_gNa", 0.05)          # rows outside every trainable
+            cell.branch(2).set("radius", 3.5)
+            cell.branch(1).set("length", 12.5)
+            before = cell.nodes.copy()
+            vals = [{"HH_gNa": jnp.asarray([0.33])}, {"radius": jnp.asarray([2.25])}]
+            cell.write_trainables(vals)
+            want = before.copy()
+            want.loc[rows_of_branch(1), "HH_gNa"] = 0.33
+            want.loc[rows_of_branch(0), "radius"] = 2.25
+            diffs = [c for c in ("HH_gNa", "radius", "length", "HH_gK", "v") if not np.allclose(cell.nodes[c].to_numpy(dtype=float), want[c].to_numpy(dtype=float), equal_nan=True)]
+            out["evals"] += 1
+            out["distinct"] += 1
+            out["results"].append(_res(f"write_trainables:after {how}() and later set() calls the tables hold the current values plus the trainables (no stale array cache)",
+                                       not diffs, f"columns that differ: {diffs}; e.g. HH_gNa {cell.nodes['HH_gNa'].tolist()} want {want['HH_gNa'].tolist()}" if diffs else "", backend="bounded-evaluation"))
     except Exception as e:
         out["error"] = f"{type(e).__name__}: {e}\n{traceback.format_exc(limit=8)}"
     return out
